@@ -3,7 +3,7 @@
    VERIF-DIRECT-VIOLATION; their counts are carried here for the record only. *)
 From Coq Require Export List NArith Bool.
 Export ListNotations.
-Open Scope N_scope.
+Local Open Scope N_scope.
 
 (* a returned slice, as ids (0 = an empty or malformed entry), run-length encoded by the harness as maximal
    runs (first id, length) of consecutive descending ids; the encoding is lossless: *)
